@@ -30,6 +30,7 @@ import (
 
 	"github.com/osrg/gobgp/v4/api"
 	"github.com/osrg/gobgp/v4/internal/verif/vr"
+	"github.com/osrg/gobgp/v4/pkg/config/oc"
 	"github.com/osrg/gobgp/v4/pkg/packet/bgp"
 )
 
@@ -54,7 +55,8 @@ type c20pResult struct {
 func c20pOpen(as uint32, id string) []byte {
 	m, _ := bgp.NewBGPOpenMessage(uint16(as), 90, netip.MustParseAddr(id),
 		[]bgp.OptionParameterInterface{bgp.NewOptionParameterCapability(
-			[]bgp.ParameterCapabilityInterface{bgp.NewCapMultiProtocol(bgp.RF_IPv4_UC), bgp.NewCapFourOctetASNumber(as), bgp.NewCapRouteRefresh()})})
+			[]bgp.ParameterCapabilityInterface{bgp.NewCapMultiProtocol(bgp.RF_IPv4_UC), bgp.NewCapFourOctetASNumber(as), bgp.NewCapRouteRefresh(),
+				bgp.NewCapGracefulRestart(false, false, 120, []*bgp.CapGracefulRestartTuple{bgp.NewCapGracefulRestartTuple(bgp.RF_IPv4_UC, true)})})})
 	b, _ := m.Serialize()
 	return b
 }
@@ -82,8 +84,15 @@ func c20pRun(t *testing.T, c c20pCase) (res c20pResult) {
 		}
 		w.logHandler = gate
 		w.start()
-		specA := simBotSpec{Name: "A", IP: [4]byte{10, 0, 0, 1}, AS: 65001, RouterID: [4]byte{1, 1, 1, 1}, HoldTime: 90}
-		specB := simBotSpec{Name: "B", IP: [4]byte{10, 0, 0, 2}, AS: 65002, RouterID: [4]byte{2, 2, 2, 2}, HoldTime: 90}
+		gr := func(n *oc.Neighbor) {
+			n.GracefulRestart.Config.Enabled = true
+			n.GracefulRestart.Config.RestartTime = 120
+			for i := range n.AfiSafis {
+				n.AfiSafis[i].MpGracefulRestart.Config.Enabled = true
+			}
+		}
+		specA := simBotSpec{Name: "A", IP: [4]byte{10, 0, 0, 1}, AS: 65001, RouterID: [4]byte{1, 1, 1, 1}, HoldTime: 90, Neighbor: gr}
+		specB := simBotSpec{Name: "B", IP: [4]byte{10, 0, 0, 2}, AS: 65002, RouterID: [4]byte{2, 2, 2, 2}, HoldTime: 90, Neighbor: gr}
 		botA, botB := w.addBot(specA), w.addBot(specB)
 		peers = []*peer{w.peer(botA), w.peer(botB)}
 		w.advance(time.Second)
@@ -131,6 +140,11 @@ func c20pRun(t *testing.T, c c20pCase) (res c20pResult) {
 				rb.conn.Close()
 			},
 		}
+		stalled := strings.HasPrefix(c.X, "stall")
+		if stalled {
+			// B is stuck: it stops reading once both sessions are up, A's routes pile up in the daemon's writer to B
+			steps = append(steps[:6:6], func() { rb.stall() }, func() { write(ra, upd) }, func() { write(ra, wd) }, func() { write(ra, upd) })
+		}
 		parked := func() bool {
 			select {
 			case <-park.reached:
@@ -172,11 +186,13 @@ func c20pRun(t *testing.T, c c20pCase) (res c20pResult) {
 		stopped := false
 		stopBgp := func() {
 			stopped = true
-			api1("StopBgp", func() error { return w.s.StopBgp(context.Background(), &api.StopBgpRequest{}) })
+			api1("StopBgp", func() error {
+				return w.s.StopBgp(context.Background(), &api.StopBgpRequest{AllowGracefulRestart: c.X == "stall-stopgr" || c.X == "stopbgp-gr"})
+			})
 		}
 		if res.reached {
 			switch c.X {
-			case "stopbgp":
+			case "stopbgp", "stopbgp-gr":
 				stopBgp()
 			case "deleteA":
 				api1("DeletePeer(A)", func() error {
@@ -230,6 +246,10 @@ func c20pRun(t *testing.T, c c20pCase) (res c20pResult) {
 				bad("api-call-panics:"+cl.name, "%s panicked: %v", cl.name, p)
 			}
 		}
+		for _, r := range remotes {
+			r.resume()
+		}
+		synctest.Wait()
 		for i, r := range remotes {
 			if !r.closed() {
 				types, _ := r.messages()
@@ -314,7 +334,7 @@ func c20pJudge(r *vr.Report, t *testing.T, c c20pCase) c20pResult {
 func TestVerif_C20_Park(t *testing.T) {
 	r := vr.Start(t, "C20", "park")
 	defer r.Finish()
-	r.Rule = "whole daemon, two passive peers; script: both sessions established, UPDATE / withdrawal / UPDATE from A (propagated to B), B closes; every record the daemon logs and every Write / Close it issues on a connection on the way: the goroutine emitting it held there x meanwhile {nothing, StopBgp, DeletePeer(A), DeletePeer(B), DisablePeer(A), A closes, the rest of the script}; then release, 10 s, StopBgp, 10 s, 1 h; oracle: every API call returned, every connection closed by the daemon, no goroutine of the bubble left (nothing drained by the harness), no panic; non-trivial = distinct (park site, perturbation)"
+	r.Rule = "whole daemon, two passive peers; script: both sessions established, UPDATE / withdrawal / UPDATE from A (propagated to B), B closes; every record the daemon logs and every Write / Close it issues on a connection on the way: the goroutine emitting it held there x meanwhile {nothing, StopBgp, StopBgp leaving the sessions to graceful restart, DeletePeer(A), DeletePeer(B), DisablePeer(A), A closes, the rest of the script}; then release, 10 s, StopBgp, 10 s, 1 h; oracle: every API call returned, every connection closed by the daemon, no goroutine of the bubble left (nothing drained by the harness), no panic; + two undisturbed cases with a peer that stops reading while routes for it pile up, then StopBgp without / with graceful restart; non-trivial = distinct (park site, perturbation)"
 	r.Assumptions = append(r.Assumptions, "park sites are the daemon's log records and its Write / Close calls on the (harness-owned) connections; sites reached with a peer's FSM lock or the table lock taken are skipped (counted in extra.skipped_under_lock)")
 	if r.ReplayPath() != "" {
 		var c c20pCase
@@ -356,11 +376,15 @@ func TestVerif_C20_Park(t *testing.T) {
 		}
 		return res
 	}
+	// a peer that is stuck (stops reading while routes for it pile up), then the daemon is stopped - with and without
+	// leaving the sessions to graceful restart
+	run(c20pCase{Park: -1, X: "stall-stop"})
+	run(c20pCase{Park: -1, X: "stall-stopgr"})
 	base := run(c20pCase{Park: -1, X: "none"})
 	k := base.records
 	for p := 0; p < k+6; p++ {
 		any := false
-		for _, x := range []string{"none", "stopbgp", "deleteA", "deleteB", "disableA", "closeA", "rest"} {
+		for _, x := range []string{"none", "stopbgp", "stopbgp-gr", "deleteA", "deleteB", "disableA", "closeA", "rest"} {
 			res := run(c20pCase{Park: p, X: x})
 			if res.reached {
 				any = true
@@ -381,7 +405,7 @@ func TestVerif_C20_Park(t *testing.T) {
 	}
 	sort.Strings(names)
 	r.States = int64(len(sites))
-	r.Bounds = map[string]any{"perturbations": 7, "park_sites_distinct": len(sites), "park_occurrences_held": len(occ), "records_in_undisturbed_run": k}
+	r.Bounds = map[string]any{"perturbations": 8, "park_sites_distinct": len(sites), "park_occurrences_held": len(occ), "records_in_undisturbed_run": k}
 	r.Extra = map[string]any{"park_sites": names, "skipped_under_lock": skipped}
 	if len(occ) < 6 {
 		t.Fatalf("ENGINE-ERROR vacuous exploration: a goroutine was held at only %d record occurrences (%v)", len(occ), names)
